@@ -200,6 +200,7 @@ func TestVerifC13(t *testing.T) {
 		}
 		// roots whose deletion callback had already run when the racing operation executed (set per collection run)
 		var processedAtRace map[string]bool
+		delFileFailed := map[string]bool{} // roots for which the collector's DelFile call returned an error (current run)
 		check := func(kind, what string) nodelite.Snapshot {
 			s, err := n.Snap()
 			x.NoErr(err, "snapshot")
@@ -215,9 +216,13 @@ func TestVerifC13(t *testing.T) {
 					k := "gc-entry-of-removed-file-after-" + kind
 					if kind == "raced-gc" && processedAtRace != nil {
 						// which side of the file's deletion callback the racing operation ran on
-						if processedAtRace[e.Root] {
+						switch {
+						case processedAtRace[e.Root]:
 							k += "-racer-ran-after-the-files-deletion-was-decided"
-						} else {
+						case delFileFailed[e.Root]:
+							// chunkinfo could not enumerate the file; the collector drops such entries
+							k += "-racer-ran-before-the-unenumerable-file-was-dropped"
+						default:
 							k += "-racer-ran-before-the-files-deletion-was-decided"
 						}
 					}
@@ -250,6 +255,7 @@ func TestVerifC13(t *testing.T) {
 			if s.Trigger {
 				racedNow := ""
 				processedAtRace = nil
+				delFileFailed = map[string]bool{}
 				var doneRoots []string
 				race := func(point string) {
 					k := x.Deviate(1 + len(raceOps))
@@ -271,7 +277,12 @@ func TestVerifC13(t *testing.T) {
 					nCand++
 					race("entry of DelFile(" + u.Name(root) + ")")
 				}
-				n.AfterGCDelFile = func(root boson.Address, _ error) { doneRoots = append(doneRoots, u.Name(root)) }
+				n.AfterGCDelFile = func(root boson.Address, err error) {
+					doneRoots = append(doneRoots, u.Name(root))
+					if err != nil {
+						delFileFailed[u.Name(root)] = true
+					}
+				}
 				res := n.GCHooked(gcCap, func(run int) { race(fmt.Sprintf("the iterator hook of collectGarbage #%d", run+1)) })
 				n.OnGCDelFile, n.AfterGCDelFile = nil, nil
 				if nCand > res.Runs {
